@@ -69,19 +69,22 @@ func writePacketIn(t *Toks, p *PacketIn) {
 	t.Bytes(p.Payload).Nat(int(p.PadSize))
 }
 
-// extIDsRaw lists the element ids in order, including duplicates (hook: read-only view).
-func extIDsRaw(h *rtp.Header) []uint8 {
-	if !h.Extension {
-		return nil
-	}
-	ids, _ := rtp.VerifExtensions(h)
-	return ids
-}
+// extIDsRaw lists the element ids in order, including duplicates, as the PUBLIC accessor
+// GetExtensionIDs reports them (nil while Extension is false or when there is none): what a user
+// of the API sees is what is observed.  (A variant of the library whose accessors forget the
+// `!h.Extension` guard while Unmarshal leaves stale elements behind shows up here: seeds
+// C02-r2-2 / C03-r2-3.)
+func extIDsRaw(h *rtp.Header) []uint8 { return h.GetExtensionIDs() }
 
-// extPayloadAt returns the payload of the i-th element.
-func extPayloadAt(h *rtp.Header, i int, _ uint8) []byte {
-	_, ps := rtp.VerifExtensions(h)
-	return ps[i]
+// extPayloadAt returns the payload of the i-th listed element: the i-th entry of the element
+// list when the accessor's list and the list agree (the hook gives positional access, which the
+// public API lacks for duplicate ids), first-match lookup by id otherwise.
+func extPayloadAt(h *rtp.Header, i int, id uint8) []byte {
+	ids, ps := rtp.VerifExtensions(h)
+	if i < len(ids) && ids[i] == id && len(ids) == len(h.GetExtensionIDs()) {
+		return ps[i]
+	}
+	return h.GetExtension(id)
 }
 
 // Build constructs the real rtp.Packet for an input description: struct literal for the fixed
